@@ -75,7 +75,7 @@ func c14Session(t *rapid.T) {
 	for i := 0; i < n; i++ {
 		it := rapid.SampledFrom(c14Items).Draw(t, "item")
 		if it == "very-long" {
-			it = strings.Repeat("long漢 ", rapid.SampledFrom([]int{50, 2000, 20000}).Draw(t, "longN"))
+			it = strings.Repeat("long漢 ", rapid.SampledFrom([]int{50, 2000, 8000}).Draw(t, "longN"))
 		}
 		if read0 && rapid.IntRange(0, 3).Draw(t, "multiline") == 0 {
 			it = it + "\nsecond line\n\tthird"
@@ -133,7 +133,10 @@ func c14Session(t *rapid.T) {
 			return false
 		}
 		// the process must keep answering; execute-silent / transform block the UI briefly
-		deadline := time.Now().Add(30 * time.Second)
+		// "stops responding" = no answer for 30 s while the process is idle, or no answer
+		// for 300 s at all (rendering huge wrapped lines in a tiny window can take a while)
+		start := time.Now()
+		lastTicks, lastProgress := s.cpuTicks(), time.Now()
 		for {
 			if _, err := s.Get(0, 0); err == nil {
 				return true
@@ -141,7 +144,10 @@ func c14Session(t *rapid.T) {
 			if _, exited := s.ExitStatus(); exited {
 				return false
 			}
-			if time.Now().After(deadline) {
+			if tk := s.cpuTicks(); tk != lastTicks {
+				lastTicks, lastProgress = tk, time.Now()
+			}
+			if time.Since(lastProgress) > 30*time.Second || time.Since(start) > 300*time.Second {
 				break
 			}
 			time.Sleep(20 * time.Millisecond)
@@ -150,7 +156,7 @@ func c14Session(t *rapid.T) {
 			t.Fatalf("fzf crashed after %s\nhistory:\n  %s\n%s", step, strings.Join(history, "\n  "), pt)
 		}
 		dump := s.GoroutineDump()
-		t.Fatalf("fzf stopped responding after %s (no answer to GET for 30 s, process alive=%v)\nscreen:\n%s\nhistory:\n  %s\ngoroutines:\n%s", step, s.Alive(), strings.Join(s.Capture(), "\n"), strings.Join(history, "\n  "), dump)
+		t.Fatalf("fzf stopped responding after %s (no answer to GET: idle for 30 s or busy for 300 s, process alive=%v)\nscreen:\n%s\nhistory:\n  %s\ngoroutines:\n%s", step, s.Alive(), strings.Join(s.Capture(), "\n"), strings.Join(history, "\n  "), dump)
 		return false
 	}
 	for i := 0; i < nsteps && alive; i++ {
@@ -276,21 +282,32 @@ func c14Hygiene(t *rapid.T, s *Session, history []string, code int, previewMayRu
 		t.Fatalf("terminal settings not restored: stty -g before %q, after %q\nhistory:\n  %s", strings.TrimSpace(string(before)), strings.TrimSpace(string(after)), h)
 	}
 	// 2. private modes switched on must be switched off again
-	time.Sleep(30 * time.Millisecond)
-	raw, _ := os.ReadFile(filepath.Join(s.Dir, "rawlog"))
-	final := map[string]string{}
-	for _, m := range privModeRe.FindAllSubmatch(raw, -1) {
-		final[string(m[1])] = string(m[2])
-	}
-	for _, mode := range []string{"1049", "1000", "1002", "1003", "1006", "1015", "2004"} {
-		if final[mode] == "h" {
-			t.Fatalf("terminal mode ?%s was switched on and never off\nhistory:\n  %s", mode, h)
+	// the log is written by tmux pipe-pane asynchronously: give the tail a moment to arrive
+	modeProblem := ""
+	for attempt := 0; attempt < 60; attempt++ {
+		raw, _ := os.ReadFile(filepath.Join(s.Dir, "rawlog"))
+		final := map[string]string{}
+		for _, m := range privModeRe.FindAllSubmatch(raw, -1) {
+			final[string(m[1])] = string(m[2])
 		}
-	}
-	for _, mode := range []string{"25", "7"} {
-		if final[mode] == "l" {
-			t.Fatalf("terminal mode ?%s (cursor / autowrap) was switched off and never on again\nhistory:\n  %s", mode, h)
+		modeProblem = ""
+		for _, mode := range []string{"1049", "1000", "1002", "1003", "1006", "1015", "2004"} {
+			if final[mode] == "h" {
+				modeProblem = fmt.Sprintf("terminal mode ?%s was switched on and never off", mode)
+			}
 		}
+		for _, mode := range []string{"25", "7"} {
+			if final[mode] == "l" {
+				modeProblem = fmt.Sprintf("terminal mode ?%s (cursor / autowrap) was switched off and never on again", mode)
+			}
+		}
+		if modeProblem == "" {
+			break
+		}
+		time.Sleep(50 * time.Millisecond)
+	}
+	if modeProblem != "" {
+		t.Fatalf("%s\nhistory:\n  %s", modeProblem, h)
 	}
 	if flags := s.Display("#{alternate_on} #{mouse_any_flag} #{mouse_button_flag} #{mouse_standard_flag} #{mouse_sgr_flag}"); flags != "0 0 0 0 0" {
 		t.Fatalf("terminal left in alternate screen / mouse mode: alternate,any,button,standard,sgr = %s\nhistory:\n  %s", flags, h)
@@ -333,4 +350,54 @@ func c14Hygiene(t *rapid.T, s *Session, history []string, code int, previewMayRu
 
 func TestVerifC14_Sessions(t *testing.T) {
 	rapid.Check(t, c14Session)
+}
+
+// Exit while a preview with a {f} temporary file is being (re)started.
+func TestVerifC14_PreviewTempFileAtExit(t *testing.T) {
+	rapid.Check(t, func(t *rapid.T) {
+		stopBurn := make(chan struct{})
+		for b := 0; b < 6; b++ {
+			go func() {
+				x := 0
+				for {
+					select {
+					case <-stopBurn:
+						return
+					default:
+						for i := 0; i < 100000; i++ {
+							x += i
+						}
+					}
+				}
+			}()
+		}
+		defer close(stopBurn)
+		cmdline := rapid.SampledFrom([]string{"cat {f}", "cat {+f}; sleep 30", "sleep 0.05; cat {f}"}).Draw(t, "preview")
+		s := StartSession(t, SessionCfg{Args: []string{"--no-mouse", "--multi", "--preview", cmdline}, Input: []byte("a\nb\nc\nd\n"), Width: 60, Height: 10})
+		defer s.Close()
+		if _, ok := s.WaitFor(10, func(st *Status) bool { return !st.Reading && st.MatchCount == 4 }); !ok {
+			infra(t, "did not settle")
+		}
+		n := rapid.IntRange(1, 6).Draw(t, "refreshes")
+		history := []string{cmdline}
+		for i := 0; i < n; i++ {
+			a := rapid.SampledFrom([]string{"refresh-preview", "down", "up", "toggle"}).Draw(t, "action")
+			s.Post(a)
+			history = append(history, a)
+			time.Sleep(time.Duration(rapid.SampledFrom([]int{0, 0, 1, 5}).Draw(t, "gapMs")) * time.Millisecond)
+		}
+		end := rapid.SampledFrom([]string{"abort", "accept", "SIGTERM"}).Draw(t, "end")
+		history = append(history, end)
+		if end == "SIGTERM" {
+			s.Signal(syscall.SIGTERM)
+		} else {
+			s.Post(end)
+		}
+		code, ok := s.WaitExit(20 * time.Second)
+		if !ok {
+			t.Fatalf("fzf did not exit: %v", history)
+		}
+		vstat.Case("C14/preview-tempfile-at-exit", strings.Join(history, "|"), true, "end="+end)
+		c14Hygiene(t, s, history, code, false, false)
+	})
 }
